@@ -162,11 +162,46 @@ func TestReplay(t *testing.T) {
 		t.Skip("no replay requested")
 	}
 	var c TCase
-	env, err := vstat.LoadReplay(p, &c)
+	env, err := vstat.LoadReplay(p, nil)
 	if err != nil {
 		t.Fatalf("cannot load %s: %v", p, err)
 	}
+	if env.Test == "TestC13ExitRace" {
+		var ec ExitRaceCase
+		vstat.LoadReplay(p, &ec)
+		for i := 0; i < 5; i++ {
+			_, v := RunExitRace(ec)
+			vstat.For("C13").Report(t, "TestReplay", ec, v)
+		}
+		return
+	}
+	if _, err := vstat.LoadReplay(p, &c); err != nil {
+		t.Fatalf("cannot decode %s: %v", p, err)
+	}
 	for i := 0; i < 20; i++ { // the programs are reproducible, the timing is not
 		runT(t, env.Property, "TestReplay", c)
+	}
+}
+
+func TestC13ExitRace(t *testing.T) {
+	if !hooksOn {
+		t.Skip("timeout hooks unavailable")
+	}
+	st := vstat.For("C13")
+	shard, _ := vstat.Shard()
+	for _, idleUs := range vstat.Pick([]int{300}, []int{200, 300, 1000}) {
+		c := ExitRaceCase{IdleUs: idleUs + 13*shard, Attempts: vstat.Pick(4000, 30000), SpanUs: 150}
+		after, v := RunExitRace(c)
+		if v != nil && timeBound[v.Sig] {
+			_, v2 := RunExitRace(c)
+			if v2 == nil {
+				st.Inconclusivef("%s once in the exit-race hammer, passed on re-run", v.Sig)
+				v = nil
+			}
+		}
+		st.Report(t, "TestC13ExitRace", c, v)
+		st.Case(true, vstat.Hash(c), func() any { return c }, "exit_race_hammer")
+		st.AddExtra("exit_race_attempts", int64(c.Attempts))
+		st.AddExtra("exit_race_arrivals_after_wind_down", int64(after))
 	}
 }
